@@ -1,12 +1,10 @@
 #!/usr/bin/env python3
 """Regenerate MANIFEST.json from the table below (keeps it valid and consistent)."""
-import json, subprocess
-PROPS = [json.loads(l) for l in open('/verif/properties.jsonl')]
-CLAIMED = {
- 'C01': dict(text='Machine-checked Coq proof, for all result histories, all max_check_attempts >= 1, hosts/services, volatile on/off, of the state-type/attempt characterisation, the event rule, the pending invariants, host Up/Down collapse and stale-result rejection on a line-by-line Gallina transcription of Checkable::ProcessCheckResult; tied to the code on every run by differential execution of the real Host/Service objects against the extracted model (exhaustive short histories + random long ones) and by regenerated source facts; the extracted property oracle (proved to accept every model trace) is run over the implementation traces.',
-             note='Trusted: Coq kernel, extraction (ExtrOcamlBasic), OCaml/C++ harness glue, srcfacts translator; agreement model/code is established on the generated population; flapping influence exercised not proved.',
-             tech='Coq proof by induction over histories + model/implementation correspondence', ref='2 C01'),
-}
+import json, subprocess, os
+PROPS = [json.loads(l) for l in open(os.path.join(os.path.dirname(os.path.dirname(os.path.abspath(__file__))), 'properties.jsonl'))]
+import os, glob
+HERE = os.path.dirname(os.path.dirname(os.path.abspath(__file__)))
+CLAIMED = {os.path.basename(f)[:-5]: json.load(open(f)) for f in sorted(glob.glob(HERE + '/manifest.d/C*.json'))}
 NOT_YET = {}
 hooks = subprocess.check_output(['git', '-C', '/repo', 'log', '--format=%H %s'], text=True).splitlines()
 hook_commits = [l.split()[0] for l in hooks if 'verif hook' in l]
@@ -32,5 +30,5 @@ for p in PROPS:
                             'level_note': c['note'], 'technique': c['tech']})
     else:
         m['not_applicable'].append({'property_id': i, 'reason': NOT_YET.get(i, 'not claimed yet: model, theorems and tie for this property are not built in this revision (planned, see DESIGN.md section 2)')})
-json.dump(m, open('/verif/MANIFEST.json', 'w'), indent=1)
+json.dump(m, open(HERE + '/MANIFEST.json', 'w'), indent=1)
 print('claimed', sorted(CLAIMED))
